@@ -88,9 +88,10 @@ QuantPart(dummy) ==
        Emit([op |-> "quant.data", entry |-> ent, ty |-> ty, data |-> [i \in 1..n |-> (i * 3) % 7],
              qa |-> qa, qb |-> 8, q |-> [n |-> qa, p |-> -3], conf |-> cf])
   \* documented panics: incomparable elements, capacity overflow
-  /\ \A n \in {4, 7}, pos \in {0, 2}, cf \in Confs :
-       Emit([op |-> "quant.data", entry |-> "ci", ty |-> "f64nan", nanpos |-> pos, data |-> [i \in 1..n |-> i],
-             qa |-> 4, qb |-> 8, q |-> [n |-> 4, p |-> -3], conf |-> cf])
+  /\ \A n \in {4, 7, 15}, pos \in 0..14, cf \in Confs, ent \in {"ci", "max_n", "max_1024"}, qa \in {2, 4, 6} :
+       (pos < n) =>
+       Emit([op |-> "quant.data", entry |-> ent, ty |-> "f64nan", nanpos |-> pos, data |-> [i \in 1..n |-> i],
+             qa |-> qa, qb |-> 8, q |-> [n |-> qa, p |-> -3], conf |-> cf])
   /\ \A n \in {4, 7}, cf \in Confs :
        Emit([op |-> "quant.data", entry |-> "max_small", ty |-> "i32", data |-> [i \in 1..n |-> i],
              qa |-> 4, qb |-> 8, q |-> [n |-> 4, p |-> -3], conf |-> cf])
